@@ -68,6 +68,9 @@ class VerdictQueue(object):
 
     def enqueue(self, envelope):
         self.envelopes.append(envelope)
+        d = re.search(br'X-Queue-Delay: (\d+)', b''.join(envelope.flatten()))
+        if d:
+            gevent.sleep(int(d.group(1)) / 1000.0)      # a slow queue: the end-of-data reply takes its time
         m = re.search(br'X-Queue-Verdict: (\d\d\d)( cmd| multi| relay)?', b''.join(envelope.flatten()))
         if m:
             code = m.group(1).decode()
@@ -172,9 +175,10 @@ def run_smtp_case(case):
         conns.append((a, b, g))
         return a
 
+    tkw = {'command_timeout': 0.5, 'data_timeout': 30.0} if cfg.get('short_command_timeout') else {}
     relay = StaticSmtpRelay('peer.example', 25, socket_creator=creator, context=client_ctx(), ehlo_as='relay.example',
                             idle_timeout=(5 if len(case['envelopes']) > 1 else None),
-                            binary_encoder=None, credentials=(('relayuser', 'relaypass') if cfg.get('auth') == 'use' else None))
+                            binary_encoder=None, credentials=(('relayuser', 'relaypass') if cfg.get('auth') == 'use' else None), **tkw)
     out = []
     desc = repr({'server': cfg, 'envelopes': [(e['sender'], e['rcpts']) for e in case['envelopes']]})
     try:
@@ -425,7 +429,8 @@ def envelope_spec(draw, utf8, eightbit_ok):
     if not draw(st.integers(0, 3)):
         block += b'X-Queue-Verdict: ' + draw(st.sampled_from([b'451', b'554', b'452'])) + \
             draw(st.sampled_from([b'', b'', b' cmd', b' multi', b' relay'])) + b'\r\n'
-    body = draw(st.one_of(st.just(body), st.sampled_from([b'', b'.\r\n', b'..\r\n.\r\n', b'no newline', b'a\nb\n', b'line\r\n' * 50])))
+    body = draw(st.one_of(st.just(body), st.sampled_from([b'', b'.\r\n', b'..\r\n.\r\n', b'no newline', b'a\nb\n', b'line\r\n' * 50,
+                                                          b'x', b'.', b'\n', b'one\r\n.x', b'one\r\n.', b'\r'])))
     if not eightbit_ok and draw(st.integers(0, 4)):
         body = bytes(c for c in body if c < 128)
         block = bytes(c if c < 128 else 63 for c in block)
@@ -487,6 +492,14 @@ def run_shard(ctx):
         f, _ = RUNNERS[case['family']](case)
         ctx.record(repr(case), nontrivial(case), labels=['leg=' + case['family']], case=case, failures=f)
     hyp.drive(ctx, smtp_case(), one, ctx.n(1200, 15000))
+    # a queue that answers the end of DATA later than the relay's command timeout, but well within its data timeout
+    for k in range(32 if not ctx.thorough else 128):
+        if ctx.mine(k):
+            pipelining = k % 2 == 0
+            one({'family': 'smtp', 'server': {'drop': [] if pipelining else ['PIPELINING'], 'no_ehlo': False, 'starttls': False,
+                                              'auth': None, 'short_command_timeout': True},
+                 'envelopes': [{'sender': 's@x.example', 'rcpts': ['r%d@y.example' % i for i in range(1 + k % 3)],
+                                'block': (b'Subject: slow %d\r\nX-Queue-Delay: 1000\r\n' % k).hex(), 'body': b'body\r\n'.hex()}]})
     hyp.drive(ctx, http_case(), one, ctx.n(200, 3000), salt=1)
     hyp.drive(ctx, lmtp_case(), one, ctx.n(300, 5000), salt=2)
     hyp.drive(ctx, _ext_case, one, ctx.n(300, 5000), salt=3)
